@@ -299,6 +299,14 @@ class _ProbeMixin:
         if self.parameters['raise_at'] is not None and \
                 n == self.parameters['raise_at']:
             raise InjectedFault(f'injected fault in {self.pid} call {n}')
+        if self.parameters.get('call_functions') and n == 0:
+            # a model with thousands of generated rate laws: each is a
+            # distinct function (a profiler keeps one record for each)
+            scope = {}
+            for i in range(self.parameters['call_functions']):
+                exec(compile(f'def rate_law_{i}(x):\n    return x + {i}\n',
+                             f'<generated_{i}>', 'exec'), scope)
+                scope[f'rate_law_{i}'](1)
         if self.parameters.get('reuse_update') and \
                 getattr(self, '_reused', None) is not None:
             # the process hands back the very object it returned before
